@@ -147,6 +147,18 @@ def two_bus_independent(order=('A', 'B'), first_use='main'):
     return dict(buses=['A', 'B'], order=list(order), reals={'d1': D, 'd2': D, 't1': TI}, handlers=handlers, main=main, horizon=6)
 
 
+
+def small_history_tree(n=4):
+    """history limit n; P awaits C; C awaits n-1 quick grandchildren, then dispatches L without awaiting it and goes on working
+    (d2) while an external actor enqueues the unrelated X behind L; C can complete only when L has (so the inline drain goes on)."""
+    hc = [['dispawait', 'A', 'G', f'G{i + 1}'] for i in range(n - 1)] + [['disp', 'A', 'L', 'L1'], ['sleep', 'd2'], ['ret', 'c']]
+    handlers = [['A', 'P', 'hP', [['sleep', 'd1'], ['dispawait', 'A', 'C', 'C1'], ['ret', 'p']]], ['A', 'C', 'hC', hc],
+                ['A', 'G', 'hG', [['ret', 'g']]], ['A', 'L', 'hL', [['sleep', 'd3'], ['ret', 'l']]], ['A', 'X', 'hX', [['ret', 'x']]]]
+    main = [['root', 'A', 'P', 'P1'], ['await', 'P1'], ['idle', 'A'], ['obs_all', 'end']]
+    return dict(buses=['A'], max_history={'A': n}, reals={'d1': D, 'd2': D, 'd3': D, 't_x': TI}, handlers=handlers, main=main,
+                actors={'x': [['sleep', 't_x'], ['root', 'A', 'X', 'X1']]}, horizon=6)
+
+
 def drain(order=('A', 'B')):
     """p12 family: bus B has X1, X2 queued while a handler of A holds the lock and then awaits a child (inline drain)."""
     handlers = [['A', 'P', 'hP', [['sleep', 'd1'], ['dispawait', 'A', 'C', 'C1'], ['ret', 'p']]], ['A', 'C', 'hC', [['ret', 'c']]],
